@@ -10,6 +10,7 @@ V = "/verif"
 props = [json.loads(l) for l in open(f"{V}/properties.jsonl")]
 
 THEMES = {
+ "clauses": "(c) the breakage is REALISTIC - the kind of mistake a refactoring, an optimisation, a \"cleanup\", a dependency upgrade workaround or a feature addition could plausibly introduce - and it needs SOMETHING SPECIFIC TO MANIFEST (a particular interleaving, a fault at a particular point, a multi-step sequence, an unusual input or configuration, or two cooperating sites that each look fine alone); ordinary use must not expose it at once. FIRST split the property statement and the quantifier into their individual clauses (write the list into notes1.md under the heading 'Clauses'), mark which clauses the ALREADY KNOWN attacks hit, and aim your patches at clauses, entry points, formats, configurations or code paths that are NOT yet hit. The patches must use different mechanisms and touch different functions.",
  "everyday": "(c) the breakage is REALISTIC - the kind of mistake an everyday commit could plausibly introduce. Make patch 1 a FEATURE ADDITION or API CONVENIENCE with a flaw (a new option, a new accepted input form, a new helper used by the existing path, a new table or cache) and patch 2 a PERFORMANCE OPTIMISATION or ROBUSTNESS \"IMPROVEMENT\" with a flaw (a fast path, a reused buffer, a precomputed value, an early return, extra error handling, a changed default, a merged duplicate). Each must need SOMETHING SPECIFIC TO MANIFEST: a particular interleaving, a fault at a particular point, a multi-step sequence of operations, an unusual input or configuration, or two cooperating sites that each look fine alone. Do NOT make a change that ordinary use would expose at once. The two patches must use different mechanisms / touch different places.",
  "classic": "(c) the breakage is REALISTIC - the kind of mistake a refactoring, an optimisation, a \"cleanup\" or a feature addition could plausibly introduce - and it needs SOMETHING SPECIFIC TO MANIFEST: a particular interleaving, a fault at a particular point, a multi-step sequence of operations, an unusual input or configuration, or two cooperating sites that each look fine alone. Do NOT make a change that ordinary use would expose at once (e.g. do not just delete the main code path). Prefer changes deep in the logic (wrong condition in one branch, a missed case among siblings, state that is not reset, a changed constant, an altered order of two operations, a wrapper that adds/removes a frame, a table entry that disagrees with its sibling table, ...). The two patches must use different mechanisms / touch different places.",
  "small": "(c) the breakage is REALISTIC and SMALL: a one-to-five-line slip of the kind code review misses - an off-by-one, `<` for `<=`, `&&` for `||`, the wrong one of two similar variables/fields/constants, a swapped argument pair, a missing `!`, a dropped `else`, a `break` for a `continue`, a copy-pasted sibling that was not adapted, a default that changed, a shadowed variable, a missing reset, a stale comment-driven \"fix\". It must still need SOMETHING SPECIFIC TO MANIFEST (an unusual input, configuration, sequence or interleaving) so that the existing tests stay green. The two patches must be in different functions and of different kinds.",
@@ -41,20 +42,22 @@ Quantifier: {pr['quantifier']['text']}
 ALREADY KNOWN (do NOT reuse these mechanisms or trivial variants of them; find DIFFERENT places and mechanisms, ideally in code paths and clauses of the property these do not touch; re-read the property statement and quantifier and pick a clause none of these attacks): {known(pid)}.
 
 
-YOUR TASK: produce TWO different, independent source changes to the library (two separate patches, each applied alone to a clean checkout), each of which BREAKS this property, while
+YOUR TASK: produce @@NPW@@ different, independent source changes to the library (@@NPWL@@ separate patches, each applied alone to a clean checkout), each of which BREAKS this property, while
   (a) the library still compiles (`go build ./...`) and
   (b) the existing test suite still passes completely (run: `/tmp/run_suite.sh {wt}` - it must print `passed 155 failed 0`), and
   {THEMES[theme]}
   (d) do not edit, add or delete any *_test.go file in the patch, and do not change go.mod/go.sum.
 
-For each patch k in 1,2 provide in {out}/ :
+For each patch k in @@NPLIST@@ provide in {out}/ :
   - patch{{k}}.diff : a unified diff produced by `git -C {wt} diff` against the clean HEAD (must apply with `git apply` at the repository root). Only non-test library files.
   - demo{{k}}_test.go : a self-contained Go test file in `package slog_test` (or `package slog` / the internal package if you need unexported access; say which directory it must be copied into in the notes) with a test function named TestDemo{{k}} that FAILS when patch{{k}} is applied and PASSES on the clean HEAD. It must be deterministic (if it needs a schedule, force it; for data races say how to run with -race). It must not depend on the network.
   - notes{{k}}.md : first line a one-line title `# {pid} patch{{k}} - <mechanism in a few words>`, then 5-15 lines: what the change is, why it looks plausible, exactly what is needed for it to manifest, the directory to copy the demo into and the exact command to run it, and the outputs you observed with and without the patch.
 Verify everything yourself: apply patch, run `/tmp/run_suite.sh {wt}` (must be 155/0), run the demo (must fail), `git -C {wt} checkout -- . && git -C {wt} clean -fdq` , run the demo again on the clean tree (must pass). Leave the worktree CLEAN (no patch applied, no demo file left) when you finish.
 
-ENVIRONMENT: no network. For every shell command first run: `export GOPROXY=off GOSUMDB=off GOTOOLCHAIN=local` . The repository uses a go.work file (keep GOWORK unset when running tests inside the worktree: `cd {wt} && go test -count=1 -run 'TestDemo1' ./slog/`). Go is 1.23. The main package is in {wt}/slog (entry.go, pc.go, attr.go, level.go, writers.go, funcs.go, adapters.go, stack.go, cmn.go, init.go, internal/times, internal/strings). Under `go test` the library is in "testing mode" (inTesting=true: Fatal/Panic do not terminate unless the Linterruptalways flag is set; the default level is Debug). Capture output by giving a logger your own writers: `l := slog.New("x").SetWriter(&buf).SetErrorWriter(&buf).SetColorMode(false)` (logfmt), `.SetJSONMode()` (JSON), `.SetColorMode(true)` (colored). Keep it focused: do not spend effort on anything but these two patches. When done, reply with a 10-line summary (the two mechanisms, and confirmation of the verification steps).
+ENVIRONMENT: no network. For every shell command first run: `export GOPROXY=off GOSUMDB=off GOTOOLCHAIN=local` . The repository uses a go.work file (keep GOWORK unset when running tests inside the worktree: `cd {wt} && go test -count=1 -run 'TestDemo1' ./slog/`). Go is 1.23. The main package is in {wt}/slog (entry.go, pc.go, attr.go, level.go, writers.go, funcs.go, adapters.go, stack.go, cmn.go, init.go, internal/times, internal/strings). Under `go test` the library is in "testing mode" (inTesting=true: Fatal/Panic do not terminate unless the Linterruptalways flag is set; the default level is Debug). Capture output by giving a logger your own writers: `l := slog.New("x").SetWriter(&buf).SetErrorWriter(&buf).SetColorMode(false)` (logfmt), `.SetJSONMode()` (JSON), `.SetColorMode(true)` (colored). Keep it focused: do not spend effort on anything but these patches. When done, reply with a 10-line summary (the two mechanisms, and confirmation of the verification steps).
 """
+        np = int(os.environ.get("NPATCH", "2"))
+        t = t.replace("@@NPW@@", {2: "TWO", 3: "THREE"}[np]).replace("@@NPWL@@", {2: "two", 3: "three"}[np]).replace("@@NPLIST@@", ",".join(str(i) for i in range(1, np + 1)))
         open(f"{out}/PROMPT.txt", "w").write(t)
     print("wrote", len(props), "prompts")
 
